@@ -127,12 +127,25 @@ class World:
             return ("err", exc_name(e))
 
     def cache_keys(self):
+        """The keys of the class-level cache, abstracted: Filenames -> abstract paths, env strings -> abstract."""
+        from pyflyby._file import Filename
+
+        def conv(x):
+            if isinstance(x, Filename):
+                return abstract_path(self.R, x)
+            if isinstance(x, (tuple, list)):
+                return [conv(y) for y in x]
+            if isinstance(x, str):
+                return self.unreal(x)
+            if x is None or isinstance(x, (int, bool)):
+                return x
+            return repr(x)
         out = []
         for k in self.M.ImportDB._default_cache:
-            if k[0] == 1:
-                out.append(["1", abstract_path(self.R, k[1]), self.unreal(k[2]), self.unreal(k[3]), self.unreal(k[4])])
+            if isinstance(k, tuple) and k:
+                out.append([str(k[0])] + [conv(x) for x in k[1:]])
             else:
-                out.append(["2", [abstract_path(self.R, f) for f in k[1]], [abstract_path(self.R, f) for f in k[2]]])
+                out.append(["?", conv(k)])
         return sorted(out, key=lambda x: json.dumps(x))
 
     def unreal(self, v):
@@ -448,7 +461,7 @@ class C12(Prop):
             r = w.lookup(q)
             files = None
             for ck in DB._default_cache:
-                if ck[0] == 2:
+                if isinstance(ck, tuple) and len(ck) >= 2 and ck[0] == 2 and isinstance(ck[1], tuple):
                     files = [abstract_path(w.R, f) for f in ck[1]]
             try:
                 ref = ref_files(w, q)
@@ -614,6 +627,18 @@ class C12(Prop):
             if k not in seen:
                 seen.add(k)
                 out.append(f)
+        if "--replay" in sys.argv:
+            # `./check C12 --replay FILE` (vcommon.run_replay) has no known-findings pass of its own: failures that
+            # belong to a listed finding's family are printed as such and do not make the replay fail.
+            listed = [e for e in load_known_findings(self.id) if e.get("status") == "finding"]
+            keep = []
+            for f in out:
+                hit = [e for e in listed if self.families.get(e.get("family"), lambda c, x: False)(case, f)]
+                if hit:
+                    print("KNOWN-FINDING (in the replayed case): property=%s %s: %s" % (self.id, hit[0]["id"], f["what"]))
+                else:
+                    keep.append(f)
+            out = keep
         return out[:8]
 
     @staticmethod
